@@ -398,6 +398,6 @@ pub fn run(mut chk: Check) -> ! {
     chk.campaign(CampaignCfg::new("text", n / 3).len(0, 300), case_text);
     chk.campaign(CampaignCfg::new("wellformed", n / 3), case_wellformed);
     chk.require_label("mutated:mutant_accepted", "mutated:case", 5.0);
-    chk.fuzz_stage("c11_schema", "fuzz_schema", 400_000, 1024, &crate::fuzzglue::seeds_schema(), crate::fuzzglue::case_schema_text);
+    chk.fuzz_stage("c11_schema", "fuzz_schema", 100_000, 1024, &crate::fuzzglue::seeds_schema(), crate::fuzzglue::case_schema_text);
     chk.finish()
 }
